@@ -3,7 +3,7 @@ from __future__ import annotations
 
 import json
 
-from . import algebra, common, tlc
+from . import algebra, common, coords, tlc
 
 PRED_OPS = {"is_parallel", "is_antiparallel", "is_perpendicular", "is_timelike", "is_spacelike", "is_lightlike"}
 
@@ -78,11 +78,41 @@ ASSUME = ["the quantifier over all real operands is approximated by the stratifi
           "float64 results are accepted within 1e-9 * scale (1e-6 on square-root branch points), a sampled accuracy check, not model-checked"]
 
 
-def _finish(prop, tier, run, recs, select_case):
+def trace_records(run, select_case, step):
+    """code -> spec: a seeded random-signature execution of the cases on the 60-digit object backend is
+    recorded and every event is judged by TLC (AlgebraTrace.tla: exact equality with Eval on the
+    operands' denotation).  Returns (records, summary)."""
+    import mpmath
+
+    cases = [c for c in run["cases"] if select_case(c)][::step]
+    events = algebra.record_trace(cases, seed=common.seed())
+    verdicts, summary, st = algebra.validate_trace(events)
+    recs = []
+    for vd in verdicts:
+        e = events[vd["line"] - 1]
+        case = {"op": e["op"], "a": e["a"], "b": e["b"], "p": e["p"]}
+        canon = tuple(e["sa"]) == coords.CANON[len(e["a"])] and (not e["b"] or tuple(e["sb"]) == coords.CANON[len(e["b"])])
+        got = e["got"]
+        gs = mpmath.nstr(mpmath.mpf(got[1][1]) / got[1][2], 30) if got[0] == "num" else json.dumps(got)
+        recs.append({"kind": "C02" if canon else "C01", "op": e["op"], "sig": [tuple(e["sa"]), tuple(e["sb"]) if e["sb"] else None],
+                     "tag": "trace-rejected:" + vd["verdict"], "got": gs, "want": json.dumps(vd.get("want"))[:300], "case": case,
+                     "strata": algebra.strata(case), "mode": "mp-trace"})
+    summary = dict(summary, tlc_states=st["distinct"])
+    return recs, summary
+
+
+def _finish(prop, tier, run, recs, select_case, trace=None):
     v = common.Verdicts(prop)
     v.extend(recs)
     nviol, nknown = v.finish()
     cov = coverage_of(run, prop, select_case, tier)
+    if trace is not None:
+        cov["recorded_trace_events"] = trace["events"]
+        cov["recorded_trace_events_accepted_exactly_by_TLC"] = trace["accepted"]
+        cov["recorded_trace_events_not_decidable_exactly"] = trace["undecided"]
+        cov["traces_validated_against_impl"] += 1
+        cov["states"] += trace["tlc_states"]
+        cov["checker_cmd"] += " ; tlc2.TLC AlgebraTrace.tla with TRACE_FILE"
     if cov["traces_validated_against_impl"] < 2 or cov["comparisons"] < 2:
         raise RuntimeError("vacuous run: no cases compared")
     return {"level": "model_checking", "coverage": cov, "violations": nviol, "known": nknown,
@@ -98,7 +128,9 @@ def _tier(tier):
 def check_c01(tier):
     run = run_cases(_tier(tier))
     recs = flatten(run, lambda r: r["kind"] in ("C01", "error"))
-    return _finish("C01", tier, run, recs, lambda c: True)
+    trecs, tsum = trace_records(run, lambda c: True, 2 if tier == "quick" else 3)
+    recs += [r for r in trecs if r["kind"] == "C01"]
+    return _finish("C01", tier, run, recs, lambda c: True, trace=tsum)
 
 
 def check_c02(tier):
@@ -107,7 +139,9 @@ def check_c02(tier):
     # value is reported here whichever signature exhibits it (C01 reports the same records as a
     # dependence on the storage)
     recs = flatten(run, lambda r: r["kind"] in ("C02", "C01") and r["case"]["op"] not in PRED_OPS)
-    return _finish("C02", tier, run, recs, lambda c: c["op"] not in PRED_OPS)
+    trecs, tsum = trace_records(run, lambda c: c["op"] not in PRED_OPS, 2 if tier == "quick" else 3)
+    recs += trecs
+    return _finish("C02", tier, run, recs, lambda c: c["op"] not in PRED_OPS, trace=tsum)
 
 
 RANGE_OPS = {"phi", "deltaphi", "theta", "deltaangle", "rho", "mag", "rho2", "mag2", "t2", "costheta", "cottheta",
